@@ -94,7 +94,8 @@ class Fn:
             if pat in self.state:
                 return self.state[pat]
             if pat in self.env:
-                return self.env[pat]
+                term, ty = self.env[pat]
+                return (self.subst(term) if "{" in term else term), ty
             if pat in self.consts:
                 return self.consts[pat]
             raise Unsupported("undeclared name %s" % pat)
@@ -432,6 +433,8 @@ class Fn:
         out = template
         for pat, (term, _ty) in self.state.items():
             out = out.replace("{%s}" % pat, term)
+        for pat, (term, _ty) in self.env.items():
+            out = out.replace("{%s}" % pat, term)
         return out
 
     # ------------------------------------------------------------------ statements
@@ -619,6 +622,26 @@ class Fn:
             return "(if %s then %s else %s)" % (self.truth(t, ty), a, b)
         if isinstance(st, ast.For) and not st.orelse and isinstance(st.target, ast.Name) and len(st.body) == 1 \
                 and isinstance(st.body[0], ast.If) and not st.body[0].orelse and len(st.body[0].body) == 1 \
+                and isinstance(st.body[0].body[0], ast.AugAssign) and isinstance(st.body[0].body[0].op, ast.Add) \
+                and isinstance(st.body[0].body[0].target, ast.Name) and st.body[0].body[0].target.id in self.env \
+                and self.env[st.body[0].body[0].target.id][1].startswith("list "):
+            # for x in L: if C(x): acc += E(x)      ==   acc ++ flat_map (fun x => if C x then E x else []) L
+            seq, ts_ = self.expr(st.iter)
+            if not ts_.startswith("list "):
+                raise Unsupported("for over a %s" % ts_)
+            acc = st.body[0].body[0].target.id
+            x = self.new(st.target.id + "_")
+            saved = dict(self.env)
+            self.env[st.target.id] = (x, ts_[len("list "):])
+            c, tc = self.expr(st.body[0].test)
+            e, te = self.expr(st.body[0].body[0].value)
+            self.env = saved
+            if te != self.env[acc][1]:
+                raise Unsupported("accumulating a %s into a %s" % (te, self.env[acc][1]))
+            return self.bind(acc, "(%s ++ flat_map (fun %s => if %s then %s else []) %s)" % (self.env[acc][0], x, self.truth(c, tc), e, seq),
+                             te, rest)
+        if isinstance(st, ast.For) and not st.orelse and isinstance(st.target, ast.Name) and len(st.body) == 1 \
+                and isinstance(st.body[0], ast.If) and not st.body[0].orelse and len(st.body[0].body) == 1 \
                 and isinstance(st.body[0].body[0], ast.Return):
             # for x in L: if C(x): return E(x)      ==   the first x of L with C(x), if any, decides
             seq, ts_ = self.expr(st.iter)
@@ -694,6 +717,9 @@ class Fn:
                 self.env[t.id] = (n, ty)
                 names.append(n)
             return "(let '(%s) := %s in %s)" % (", ".join(names), v, self.block(rest))
+        if isinstance(st, ast.Assign) and len(st.targets) == 1 and isinstance(st.targets[0], ast.Name) \
+                and isinstance(st.value, ast.List) and not st.value.elts and st.targets[0].id in self.spec.get("empty_lists", {}):
+            return self.bind(st.targets[0].id, "[]", self.spec["empty_lists"][st.targets[0].id], rest)
         if isinstance(st, ast.Assign) and len(st.targets) == 1:
             pat = dotted(st.targets[0])
             v, tv = self.expr(st.value)
@@ -849,6 +875,12 @@ SPECS = [
          env={"event": ("event", "str"), "file": ("file", "str"), "line": ("line", "Z"), "function_name": ("function_name", "str"),
               "self.path": ("path", "str"), "self.__function_name": ("fname", "str")},
          static_none={"self.__function_name": False}),
+    dict(group="Match", name="gen_actions_for_location", path="processor/trigger_handler.py", cls="TriggerHandler", func="__actions_for_location",
+         params="(tp_config : list trigger) (event file : str) (line : Z) (function : str)", ret="list nat",
+         args=["self", "event", "file", "line", "function", "frame"], empty_lists={"actions": "list nat"},
+         env={"event": ("event", "str"), "file": ("file", "str"), "line": ("line", "Z"), "function": ("function", "str"), "frame": ("tt", "unit"),
+              "self._tp_config": ("tp_config", "list trigger"), "trigger.actions": ("(t_actions {trigger})", "list nat")},
+         calls={"trigger.at_location": ("trigger_at_location {trigger}", ["str", "str", "Z", "str", "unit"], "bool")}),
     # ---- collection limits (C05), rendering (C02)
     dict(group="Collect", name="gen_truncate_string", path="processor/variable_processor.py", cls=None, func="truncate_string",
          params="(string : str) (max_length : Z)", ret="str * bool", args=["string", "max_length"],
@@ -1053,7 +1085,7 @@ SPECS = [
 
 GROUPS = {           # generated file -> (imports, which properties' theorems are stated over it)
     "Limits": ("From Deep Require Import Base Limiter PureSupport.", ["C04"]),
-    "Match": ("From Deep Require Import Base PureSupport.", ["C03"]),
+    "Match": ("From Deep Require Import Base Match PureSupport.", ["C03"]),
     "Collect": ("From Deep Require Import Base PureSupport.", ["C05"]),
     "Render": ("From Deep Require Import Base PureSupport.", ["C02"]),
     "Truth": ("From Deep Require Import Base Config PureSupport.", ["C10", "C19"]),
